@@ -315,4 +315,62 @@ theorem served_sigOk_partial (env : Env) (cenv : Nat → Content) (rid : RootId)
     subst h3
     exact ⟨h4.symm, Blockstore.getShred_stored _ _ hst b.hash i j s hg⟩
 
+/-! ### non-vacuity and the one divergence -/
+
+section Witness
+open AgModel.Exec.ShredEnv
+open AgModel.Shred (wOut wS wFlipped wJunk)
+
+/-- interning used in the examples: the example slice's root is id 1 -/
+def ridEx : RootId := fun h => if h = (wOut.getD 3 default).root then 1 else 2
+def cenvEx : Nat → Content := fun _ => .bad
+/-- the same leader (key 5) signs a second slice for slot 7, slice 3: other content -/
+def wSlice2 : Shred.Slice := ⟨⟨7, 3, true⟩, some (6, genHash 3), [9, 2, 0, 128, 0]⟩
+def wOut2 : List VShred := Shred.leaderOut toyEnv .regular wSlice2 5 (keyOf 1)
+/-- a shred of the conflicting slice whose data/coding type a relay flipped -/
+def wConflictFlipped : Shred.Shred :=
+  { (wOut2.getD 3 default).shred with isData := !(wOut2.getD 3 default).shred.isData }
+
+def view (c : Blockstore.Shred) : Nat × Bool × Nat × Nat × Bool := (c.slice, c.isLast, c.root, c.idx, c.ty)
+
+/-- **Non-vacuity of the abstraction**: a concrete fine shred of the leader (key 5, slot 7, slice 3, index 3) passes
+    `try_new(_, None, 5)` and abstracts to the coarse shred (slice 3, last, root id 1, index 3, type fits); with its
+    type flipped it still validates and abstracts to the same shred with `ty = false`; the same shred with a junk
+    signature, under another key, or offered to another slot is no delivery at all. -/
+theorem abs_witness :
+    (absIn toyEnv ridEx 5 7 wS).map view = some (3, true, 1, 3, true) ∧
+    (absIn toyEnv ridEx 5 7 wFlipped).map view = some (3, true, 1, 3, false) ∧
+    absIn toyEnv ridEx 5 7 (wJunk 3) = none ∧
+    absIn toyEnv ridEx 6 7 wS = none ∧
+    absIn toyEnv ridEx 5 8 wS = none ∧
+    absIn toyEnv ridEx 5 7 { wS with index := 4 } = none := by
+  decide +kernel
+
+/-- **Non-vacuity of the simulation**: the fine node on junk, a genuine shred, its type-flipped copy and a duplicate
+    sends exactly `FirstShred`, stays unflagged and caches the slice's commitment with the signature verified for it;
+    the coarse run on the abstractions of the shreds that validate sends the same. -/
+theorem run_witness :
+    (FNode.run toyEnv cenvEx ridEx 5 (FNode.new 4 7) [wJunk 3, wS, wFlipped, wS]).2 = [.firstShred] ∧
+    (FNode.run toyEnv cenvEx ridEx 5 (FNode.new 4 7) [wJunk 3, wS, wFlipped, wS]).1.abs.misbehaved = false ∧
+    (FNode.run toyEnv cenvEx ridEx 5 (FNode.new 4 7) [wJunk 3, wS, wFlipped, wS]).1.cachedEntry 3
+      = some (wOut.getD 3 default).cacheEntry ∧
+    (runNode cenvEx (SlotData.new 4 7) ([wJunk 3, wS, wFlipped, wS].filterMap (absIn toyEnv ridEx 5 7))).2 = [.firstShred] := by
+  decide +kernel
+
+/-- **The one place where the node is not "the blockstore on what validates"** (why the simulation is stated with
+    `runNode`): after a genuine shred of slice 3, a shred of a *second* slice the leader signed for the same slot and
+    index, with its type flipped on the way, makes the node flag the leader (`try_new` answers `Equivocation` before
+    the type is looked at), whereas the blockstore model fed the abstraction drops it as `WrongType`. The node errs on
+    the safe side: the leader did sign two commitments. -/
+theorem typed_conflict_witness :
+    (FNode.run toyEnv cenvEx ridEx 5 (FNode.new 4 7) [wS, wConflictFlipped]).2 = [.firstShred, .invalidBlock] ∧
+    (FNode.run toyEnv cenvEx ridEx 5 (FNode.new 4 7) [wS, wConflictFlipped]).1.abs.misbehaved = true ∧
+    (runNode cenvEx (SlotData.new 4 7) ([wS, wConflictFlipped].filterMap (absIn toyEnv ridEx 5 7))).2
+      = [.firstShred, .invalidBlock] ∧
+    (runDissem cenvEx (SlotData.new 4 7) ([wS, wConflictFlipped].filterMap (absIn toyEnv ridEx 5 7))).2 = [.firstShred] ∧
+    (runDissem cenvEx (SlotData.new 4 7) ([wS, wConflictFlipped].filterMap (absIn toyEnv ridEx 5 7))).1.misbehaved = false := by
+  decide +kernel
+
+end Witness
+
 end AgModel.Seam
